@@ -42,6 +42,10 @@ MAP = [  # (substring of the commit subject, property)
  ("bare methods over the dict protocols crashed on a simple-typed argument", "C10"),
  ("Date type with a custom format raised AttributeError", "C10"),
  ("duration too large for timedelta escaped", "C10"),
+ ("date with a time zone suffix and an impossible day or month", "C10"),
+ ("SOAP multiref href pointing to no element escaped as KeyError", "C10"),
+ ("SOAP multiref href to an enclosing element recursed", "C10"),
+ ("HttpRpc array index with more digits than int() reads", "C10"),
  ("duration pattern accepted any character as the decimal point", "C10"),
  ("JSON request declaring an unknown charset escaped", "C10"),
  ("attachment lacking Content-ID raised AttributeError", "C10"),
